@@ -14,7 +14,14 @@ import (
 
 func TestVerif_C07(t *testing.T) {
 	kit07.Main(t, "sync", func(c kit07.Case, file []byte, report func(error)) {
-		ds := syncNewDs(syncConfig{TargetDB: c.TargetDB, SenderCount: 16})
+		// a retry runs on the same syncer object, like `go ds.Sync()` after a failed full sync
+		var ds *DbSyncer
+		if kit07.Attempt == 2 {
+			ds = kit07.Shared.(*DbSyncer)
+		} else {
+			ds = syncNewDs(syncConfig{TargetDB: c.TargetDB, SenderCount: 16})
+			kit07.Shared = ds
+		}
 		report(ds.syncRDBFile(bufio.NewReaderSize(bytes.NewReader(file), 4096), []string{"target:6379"}, "auth", "", int64(len(file)), false))
 	})
 }
